@@ -3,7 +3,12 @@
 use crate::engine::{Ctx, SubCheck};
 
 pub mod c01;
+pub mod c02;
+pub mod c03;
+pub mod c04;
 pub mod c05;
+pub mod c08;
+pub mod c09;
 
 pub struct PropDef {
     pub id: &'static str,
@@ -14,12 +19,17 @@ pub struct PropDef {
     pub subs: Vec<Box<dyn SubCheck>>,
 }
 
-pub const ALL: [&str; 2] = ["C01", "C05"];
+pub const ALL: [&str; 7] = ["C01", "C02", "C03", "C04", "C05", "C08", "C09"];
 
 pub fn get(id: &str, ctx: &Ctx) -> Option<PropDef> {
     match id {
         "C01" => Some(c01::def(ctx)),
+        "C02" => Some(c02::def(ctx)),
+        "C03" => Some(c03::def(ctx)),
+        "C04" => Some(c04::def(ctx)),
         "C05" => Some(c05::def(ctx)),
+        "C08" => Some(c08::def(ctx)),
+        "C09" => Some(c09::def(ctx)),
         _ => None,
     }
 }
